@@ -616,4 +616,8 @@ class DynamicSeedingInstrumentation(python3_11.DynamicSeedingInstrumentation):
     STRING_FUNC_POS_WITH_ARG = -4
 
     def extract_method_name(self, instr: Instr) -> str | None:  # noqa: D102
-        return extract_name(instr.arg) if instr.name == "LOAD_ATTR" else None
+        # Only a LOAD_ATTR that loads a method for a call (its argument is ``(True, name)``)
+        # starts a method call; a plain attribute access (``g = s.startswith``) is no call.
+        if instr.name != "LOAD_ATTR" or not (isinstance(instr.arg, tuple) and instr.arg[0] is True):
+            return None
+        return extract_name(instr.arg)
